@@ -202,7 +202,8 @@ def check_spherical(ctx):
                 ctx.ob('R3', f2, n, ok, 'azimuth = arctan2(y, x)' if ok else f'azimuth computed as arctan2({", ".join(a)})')
             elif fn == 'arcsin':
                 ok = a and a[0].replace(' ', '') == f'{params[2]}/r'
-                ctx.ob('R3', f2, n, True if ok else (None if not a else False), 'elevation = arcsin(z / r)' if ok else f'elevation computed as arcsin({a[0] if a else ""})')
+                wrong = bool(a) and any(a[0].replace(' ', '') == f'{p_}/r' for p_ in params[:2])  # arcsin(x / r), arcsin(y / r): the wrong component
+                ctx.ob('R3', f2, n, True if ok else (False if wrong else None), 'elevation = arcsin(z / r)' if ok else f'elevation computed as arcsin({a[0] if a else ""})')
             elif fn == 'sqrt':
                 t = a[0].replace(' ', '') if a else ''
                 for p_ in params:
